@@ -324,6 +324,71 @@ pub mod generics {
         pub a: TwoUnused<u64, bool>,
         pub b: TwoUnused<super::basic::Tup, u8>,
     }
+    /// user types whose names merely contain `Box` after a digit / an underscore / letters, next to real boxes
+    #[derive(TypeInfo)]
+    pub struct Vec2Box<T> {
+        pub min: T,
+        pub max: T,
+    }
+    #[allow(non_camel_case_types)]
+    #[derive(TypeInfo)]
+    pub struct My_Box<T>(pub T);
+    #[derive(TypeInfo)]
+    pub struct SandBox<T>(pub T);
+    #[derive(TypeInfo)]
+    pub struct UsesLookalikes {
+        pub bounds: Vec2Box<u16>,
+        pub under: My_Box<u8>,
+        pub real_outside: Box<Vec2Box<u8>>,
+        pub real_inside: SandBox<Box<u16>>,
+        pub both: (MyBox<u16>, Box<bool>),
+        pub opt: Option<SandBox<Box<u32>>>,
+    }
+    #[derive(TypeInfo)]
+    pub enum CallLookalikes {
+        A { inner: SandBox<Box<u16>>, plain: Vec2Box<u8> },
+        B(MyBox<Box<u64>>, Box<u8>),
+    }
+    /// unit of measure
+    #[derive(TypeInfo)]
+    pub struct Kilo;
+    /// a skipped parameter ...
+    #[derive(TypeInfo)]
+    #[scale_info(skip_type_params(U))]
+    pub struct Measured<T, U: 'static> {
+        pub value: T,
+        pub scale: u8,
+        pub _unit: PhantomData<U>,
+    }
+    /// ... used inside another generic definition with an argument that depends on the outer parameter
+    #[derive(TypeInfo)]
+    pub struct Reading<T> {
+        pub raw: Measured<T, Kilo>,
+        pub n: u8,
+    }
+    #[derive(TypeInfo)]
+    pub struct UsesReading {
+        pub a: Reading<u16>,
+        pub b: Reading<u64>,
+    }
+    /// parameter names that are prefixes of one another ...
+    #[derive(TypeInfo)]
+    pub struct Pair<Hash, Hashing> {
+        pub first: Hash,
+        pub second: Hashing,
+    }
+    /// ... and parent parameters handed on in swapped position
+    #[derive(TypeInfo)]
+    pub struct Swapper<A, B> {
+        pub p: Pair<B, A>,
+        pub q: Pair<A, B>,
+        pub v: Vec<Pair<B, A>>,
+    }
+    #[derive(TypeInfo)]
+    pub struct UsesSwapper {
+        pub x: Swapper<u8, u16>,
+        pub y: Swapper<bool, u32>,
+    }
     #[derive(TypeInfo)]
     pub struct UsesPh {
         pub t: TuplePh<u32>,
@@ -672,7 +737,30 @@ pub mod versions {
             B(u16),
         }
     }
+    /// one definition per version whose fields use the two parameters the other way round; the first parameter's
+    /// name is a prefix of the second's
+    pub mod h1 {
+        use scale_info::TypeInfo;
+        #[derive(TypeInfo)]
+        pub struct Header<Hash, Hashing> {
+            pub parent: Hash,
+            pub digest: Hashing,
+        }
+    }
+    pub mod h2 {
+        use scale_info::TypeInfo;
+        #[derive(TypeInfo)]
+        pub struct Header<Hash, Hashing> {
+            pub parent: Hashing,
+            pub digest: Hash,
+        }
+    }
     use scale_info::TypeInfo;
+    #[derive(TypeInfo)]
+    pub struct BothHdr {
+        pub a: h1::Header<u32, u64>,
+        pub b: h2::Header<u32, u64>,
+    }
     #[derive(TypeInfo)]
     pub struct Both {
         pub a: v1::Holder,
@@ -713,6 +801,11 @@ pub fn all() -> Vec<(&'static str, PortableRegistry)> {
         ("phantom", reg_of::<generics::UsesPh>()),
         ("two_unused", reg_of::<generics::UsesTwoUnused>()),
         ("tagged", reg_of::<generics::UsesTagged>()),
+        ("skipnest", reg_of::<generics::UsesReading>()),
+        ("lookalikes", reg_of::<generics::UsesLookalikes>()),
+        ("lookalikes_enum", reg_of::<generics::CallLookalikes>()),
+        ("swapper", reg_of::<generics::UsesSwapper>()),
+        ("versions_hdr", reg_of::<versions::BothHdr>()),
         ("matrix", reg_of::<generics::UsesMatrix>()),
         ("cow_generic", reg_of::<generics::UsesCowG>()),
         ("mybox", reg_of::<generics::UsesUsesMyBox>()),
